@@ -94,7 +94,11 @@ impl Gates {
         if a == 0 && kind_of(site) == "poll" {
             // the receiving thread is about to enter poll(): the timed wait starts now (time spent parked at the
             // gate must not count towards "waited at least the requested time")
-            *POLL_RELEASED.lock().unwrap() = Some(Instant::now());
+            // (the first poll of the call: an implementation may poll again, e.g. after EINTR)
+            let mut p = POLL_RELEASED.lock().unwrap();
+            if p.is_none() {
+                *p = Some(Instant::now());
+            }
         }
     }
 
